@@ -200,6 +200,10 @@ func outcomeIn(o outcome, allowed []outcome) bool {
 		if normTerm(a.T) == normTerm(o.T) && a.M == o.M {
 			return true
 		}
+		// literal text: compared as text, however the projector classified the expression
+		if strings.HasPrefix(a.T, "lit[") && litText(a.T) == litText(o.T) {
+			return true
+		}
 	}
 	return false
 }
@@ -210,6 +214,14 @@ func normTerm(t string) string {
 	// literal text that is not a basic literal is projected as expr[...]: same class as lit[...]
 	if strings.HasPrefix(t, "expr[") {
 		t = "lit[" + strings.TrimPrefix(t, "expr[")
+	}
+	return t
+}
+
+func litText(t string) string {
+	t = normTerm(t)
+	if strings.HasPrefix(t, "lit[") && strings.HasSuffix(t, "]") {
+		return t[4 : len(t)-1]
 	}
 	return t
 }
